@@ -43,6 +43,7 @@ gen = _load("gen")
 cases_mod = _load("cases")
 validate_ext = _load("validate_ext")
 toolgen = _load("toolgen")
+image_stage = _load("image_stage")       # whole-image stage (coq/Image): see props/C03/image_stage.py
 
 ENV = dict(os.environ, ASAN_OPTIONS="detect_leaks=0")
 COMP_NAME = {1: "gzip", 2: "lzma", 4: "xz", 5: "lz4", 6: "zstd"}
@@ -369,7 +370,21 @@ def run(ctx):
         ctx.violation("model-extraction-failed",
                       "the Coq model of C03 no longer compiles / extracts against the current tree: %s" % (str(e)[-600:],),
                       dict(kind="proof obligation / model build", detail=str(e)[-3000:]), no_input=True)
+    try:
+        h_image, drv_image = image_stage.build(B, core, info, HERE)
+        dst = os.path.join(bindir, "c03_h_image")
+        shutil.copy2(h_image, dst)
+        h_image = dst
+    except Exception as e:  # the whole-image model / harness no longer builds against the current tree
+        h_image = drv_image = None
+        ctx.violation("image-model-build-failed",
+                      "the whole-image model (coq/Image) or its harness no longer builds against the current tree: %s" % (str(e)[-600:],),
+                      dict(kind="proof obligation / model build", detail=str(e)[-3000:]), no_input=True)
     ctx.trusted += [
+        "props/C03/h_image.c (drives the real sqfs_writer_init / sqfs_writer_finish on a real file; toy compressor injected with "
+        "-Wl,--wrap=sqfs_compressor_create; dumps the post-processed fstree, the data area, the fragment table and the xattr section "
+        "as the model's inputs), props/C03/image_driver.ml + image_stubs.c (decompressor oracle of the extracted reader = system "
+        "zlib/liblzma/liblz4/libzstd), props/C03/image_stage.py (expected tree of a spec, comparison with vlib/sqfsimg.py)",
         "props/C03/h_dirmeta.c, props/C03/driver.ml (command parsing, hex I/O, in-memory sqfs_file_t, toy compressor in C)",
         "props/C03/h_comp.c (re-evaluation of the compressor contract on the real back ends)",
         "props/C03/gen.py (file-local constants -> coq/C03/GenC03.v)",
@@ -402,6 +417,14 @@ def run(ctx):
             res = tool_search(ctx, tools, [r["spec"]], drv)
             ctx.coverage["evaluations"] = 1
             ctx.coverage["rule"] = "replay of one packer run"
+        elif kind == "image-lines" and h_image:
+            res = image_stage.exact_tie(ctx, h_image, drv_image, [("replay", l) for l in r.get("lines", [])])
+            ctx.coverage["evaluations"] = res["cases"]
+            ctx.coverage["rule"] = "replay of whole-image exact-tie cases"
+        elif kind == "image-real" and h_image:
+            res = image_stage.real_images(ctx, tools, drv_image, [r["spec"]], "thorough")
+            ctx.coverage["evaluations"] = 1
+            ctx.coverage["rule"] = "replay of one packer run read by the extracted reader"
         else:
             ctx.log("replay file has no re-runnable case (kind=%r)" % kind)
         return
@@ -413,10 +436,20 @@ def run(ctx):
     cc = comp_contract(ctx, hc, cl)
     specs = toolgen.plan(rnd, ctx.tier)
     ts = tool_search(ctx, tools, specs, drv)
+    img = None
+    if h_image:
+        t0 = time.time()
+        img = image_stage.stage(ctx, h_image, drv_image, tools, toolgen, ctx.seed, ctx.tier)
+        ctx.log("whole-image stage: %d exact cases (%d equal), %d real images (%d valid, %d trees compared) in %.1fs"
+                % (img["exact"]["cases"], img["exact"]["exact_equal"], img["real"]["images"], img["real"]["valid"],
+                   img["real"]["trees_read"], time.time() - t0))
 
-    ctx.coverage["evaluations"] = comp["cases"] + cc["calls"] + ts["images"]
-    ctx.coverage["distinct_nontrivial"] = comp["nontrivial"] + cc["compressed_results"] + ts["images"]
-    ctx.coverage["traces_validated_against_impl"] = comp["cases"]
+    ctx.coverage["evaluations"] = comp["cases"] + cc["calls"] + ts["images"] + \
+        (img["exact"]["cases"] + img["real"]["images"] if img else 0)
+    ctx.coverage["distinct_nontrivial"] = comp["nontrivial"] + cc["compressed_results"] + ts["images"] + \
+        (img["exact"]["accepted"] + img["real"]["images"] if img else 0)
+    ctx.coverage["traces_validated_against_impl"] = comp["cases"] + (img["exact"]["cases"] if img else 0)
+    ctx.coverage["whole_image"] = img
     ctx.coverage["rule"] = (
         "component tie (exact bytes, model vs C): systematic cases at every branch boundary of the models -- appends of "
         "1..24577 bytes around 8192 with/without flush, KEEP_IN_MEMORY on/off, toy compressor modes (never / RLE / "
@@ -427,7 +460,13 @@ def run(ctx):
         "compressor contract: all five back ends (+lz4hc), meta-writer (outsize 8192) and block-processor (outsize = "
         "block size) call patterns, sizes 1..block size, six content kinds; tool level: real gensquashfs/tar2sqfs on 9 "
         "tree shapes x 5 compressors x block sizes 4K..1M x -e/-T/-B, every image through validate_ext; non-trivial = "
-        "directory case / multi-block meta case / compressor call that returned a compressed result / image" % ctx.seed)
+        "directory case / multi-block meta case / compressor call that returned a compressed result / image; whole-image "
+        "stage: exact tie of Image.write_image against the real sqfs_writer_init + sqfs_writer_finish (configuration sweep "
+        "toy compressor x block size x device block x -e x no-xattr x compressor options; trees with every inode type, files "
+        "around the block size, no files / only blocks / only fragments, refused block sizes, tables of more than one "
+        "metadata block, seeded random trees) with valid_image + read_image_tree on the C output, and the extracted reader "
+        "specification + valid_image on real gensquashfs / tar2sqfs images of 8 tree shapes x 5 compressors compared with "
+        "the input tree and with vlib/sqfsimg.py" % ctx.seed)
     ctx.coverage["component"] = comp
     ctx.coverage["compressor_contract"] = cc
     ctx.coverage["tool_level"] = ts
@@ -440,3 +479,5 @@ def run(ctx):
 def setup():
     gen.regen()
     core.build_model_driver("C03", "ExtractC03.v", os.path.join(HERE, "driver.ml"))
+    core.build_model_driver("C03image", "ExtractImage.v", os.path.join(HERE, "image_driver.ml"),
+                            stubs_c=os.path.join(HERE, "image_stubs.c"), cclibs=["-lz", "-llzma", "-llz4", "-lzstd"])
